@@ -811,6 +811,10 @@ func genHTTP(c *gen.Ctx) httpIn {
 		if rt.Filter {
 			names = append(names, "query", "pit", "oot", "expand")
 		}
+		if rt.API == "v1" && rt.CtlMethod != "" && (rt.Method == "GET" || rt.Method == "HEAD") && strings.Contains(rt.Pattern, "{ledger}/") &&
+			!strings.HasSuffix(rt.Pattern, "/_info") && !strings.HasSuffix(rt.Pattern, "/stats") && !strings.Contains(rt.Pattern, "{address}") {
+			names = append(names, "pit", "oot") // every v1 read goes through getResourceQuery (pit / oot dates)
+		}
 		names = append(names, "unknownParam")
 		k := gen.Pick(r, names)
 		switch k {
